@@ -91,7 +91,36 @@ func (c *VC) heapOr(st *State, name string, s *Sort) *Term {
 }
 
 func (c *VC) sliceHeapName(elem *Sort) string { return "HS_" + sanitize(elem.Name) }
-func (c *VC) ptrHeapName(s *Sort) string      { return "HP_" + sanitize(s.Name) }
+// leafClass groups leaf Go types that may legitimately share memory cells (same width and
+// representation class); each class has its own heap, so that e.g. an int32 cell and a
+// pointer cell never interfere even when both are modelled by the SMT sort Int.
+func leafClass(t types.Type) string {
+	switch u := t.Underlying().(type) {
+	case *types.Basic:
+		if w, _, ok := intInfo(u); ok {
+			return fmt.Sprintf("i%d", w)
+		}
+		if w, ok := isFloat(u); ok {
+			return fmt.Sprintf("f%d", w)
+		}
+		switch u.Kind() {
+		case types.Bool, types.UntypedBool:
+			return "bool"
+		case types.String, types.UntypedString:
+			return "str"
+		}
+		return "ptr"
+	case *types.Slice:
+		return "slice"
+	case *types.Interface:
+		return "iface"
+	case *types.Map:
+		return "map"
+	}
+	return "ptr"
+}
+
+func (c *VC) ptrHeapNameT(t types.Type) string { return "HP_" + leafClass(t) }
 
 func (c *VC) sliceHeap(st *State, elem *Sort) (string, *Term) {
 	n := c.sliceHeapName(elem)
@@ -102,12 +131,12 @@ func (c *VC) sliceHeap(st *State, elem *Sort) (string, *Term) {
 	return n, h
 }
 
-func (c *VC) ptrHeap(st *State, s *Sort) (string, *Term) {
-	n := c.ptrHeapName(s)
+func (c *VC) ptrHeap(st *State, t types.Type) (string, *Term) {
+	n := c.ptrHeapNameT(t)
 	if h, ok := st.heaps[n]; ok {
 		return n, h
 	}
-	h := c.heapDefault(st, n, arraySort(sortInt, s))
+	h := c.heapDefault(st, n, arraySort(sortInt, c.sortOf(t)))
 	return n, h
 }
 
